@@ -2,6 +2,8 @@ import Driver.Buddy
 import Driver.Key
 import Driver.Table
 import Driver.Multimap
+import Driver.Hist
+import Driver.Image
 /-! Line-protocol driver. First token of each line selects the model. -/
 open Redb.Driver
 
@@ -9,6 +11,7 @@ structure DState where
   buddy : Option Redb.Buddy.Buddy := none
   tbl : TblState := {}
   mm : MmState := {}
+  hist : HistState := {}
 
 def dispatch (st : DState) (line : String) : DState × String :=
   let (req, obs) := splitLine line
@@ -20,10 +23,12 @@ def dispatch (st : DState) (line : String) : DState × String :=
   | "tbl" :: rest =>
     let (t, out) := tblStep st.tbl rest obs
     ({ st with tbl := t }, out)
+  | "hist" :: rest =>
+    let (t, out) := histStep st.hist (rest ++ (if obs.isEmpty then [] else "=>" :: obs))
+    ({ st with hist := t }, out)
   | "mm" :: rest =>
     let (t, out) := mmStep st.mm rest obs
     ({ st with mm := t }, out)
-  | "img" :: _ => (st, "skip")
   | _ => (st, "bad-op")
 
 partial def loop (h : IO.FS.Stream) (out : IO.FS.Stream) (st : DState) : IO Unit := do
@@ -32,9 +37,15 @@ partial def loop (h : IO.FS.Stream) (out : IO.FS.Stream) (st : DState) : IO Unit
   if line.trimAscii.toString.isEmpty || line.startsWith "#" then
     loop h out st
   else
-    let (st', o) := dispatch st line
-    out.putStrLn o
-    loop h out st'
+    match (splitLine line).1 with
+    | "img" :: rest =>
+      -- the image checker reads a file, so it is handled here rather than in the pure `dispatch`
+      out.putStrLn (← imgStep rest)
+      loop h out st
+    | _ =>
+      let (st', o) := dispatch st line
+      out.putStrLn o
+      loop h out st'
 
 def main : IO Unit := do
   let out ← IO.getStdout
